@@ -1,6 +1,7 @@
 import PsiModel.Epochs
 import PsiProofs.Helper.C18_Epochs
 import PsiProofs.Helper.C18_Runs
+import PsiProofs.Helper.C18_Debounce
 /-! C18 — property theorems for the boolean-epoch utilities. -/
 namespace Psi.Epochs
 
@@ -87,5 +88,36 @@ example : IsMaximalRun [false, true, true, false] 1 3 := by
   intro i h1 h2
   have : i = 1 ∨ i = 2 := by omega
   rcases this with h | h <;> subst h <;> rfl
+
+/-! ### debounce_epochs -/
+
+/-- `util.debounce_epochs` = drop the runs shorter than `d`, then join survivors whose gap is `≤ d`
+(for every run list that is sorted and disjoint, i.e. everything `epochs` returns). The hypothesis
+`0 ≤ d` is not needed by the proof; it is kept because the property only speaks of such limits. -/
+theorem debounce_spec : ∀ (e : List (Int × Int)) (d : Int),
+    SortedDisjoint e → 0 ≤ d → debounceEpochs e d = debounceSpec e d :=
+  fun _ d h _ => debounce_of_colSorted d h.colSorted
+
+/-- the same under the weaker hypothesis that each column is non-decreasing, any `d`. -/
+theorem debounce_spec_colSorted : ∀ (e : List (Int × Int)) (d : Int),
+    ColSorted e → debounceEpochs e d = debounceSpec e d :=
+  fun _ d h => debounce_of_colSorted d h
+
+/-- what `epochs` returns always satisfies the hypothesis of `debounce_spec`. -/
+theorem maximalRuns_sortedDisjoint : ∀ x : List Bool,
+    SortedDisjoint ((maximalRuns x).map (fun p => ((p.1 : Int), (p.2 : Int)))) := by
+  intro x
+  refine ⟨?_, ?_⟩
+  · intro p hp
+    obtain ⟨q, hq, rfl⟩ := List.mem_map.mp hp
+    have := (maximalRuns_sound x q hq).1
+    simp only; omega
+  · refine List.Pairwise.map _ ?_ (maximalRuns_sorted x)
+    intro a b hab
+    simp only; omega
+
+example : SortedDisjoint [(0, 2), (3, 4), (9, 12)] ∧ (0 : Int) ≤ 2 ∧
+    debounceEpochs [(0, 2), (3, 4), (9, 12)] 2 = [(0, 2), (9, 12)] := by
+  refine ⟨⟨by decide, by decide⟩, by decide, by decide⟩
 
 end Psi.Epochs
